@@ -243,11 +243,18 @@ class ScannerModel:
                     return ("none",)
                 return ("some", ("int", ord(self.text[self.pos])))
             if name == "eat_until":
-                pat = self.pattern(args[1] if len(args) > 1 else None)
-                rest = self.text[self.pos:]
-                i = rest.find(pat)
-                self.pos = len(self.text) if i < 0 else self.pos + i
-                return ("unit",)
+                raw = t["args"][1] if len(t["args"]) > 1 else None
+                if isinstance(raw, dict) and raw.get("const") is not None and "fn" not in raw:
+                    pat = self.pattern(args[1] if len(args) > 1 else None)
+                    rest = self.text[self.pos:]
+                    i = rest.find(pat)
+                    start = self.pos
+                    self.pos = len(self.text) if i < 0 else self.pos + i
+                    return ("str", self.text[start:self.pos])
+                start = self.pos                 # a predicate (or a pattern _pat_matches can read): stop at its first match
+                while self.pos < len(self.text) and not self._pat_matches(fr, t, args):
+                    self.pos += 1
+                return ("str", self.text[start:self.pos])
             if name in ("eat_if", "at"):
                 k = self._pat_matches(fr, t, args)
                 if k and name == "eat_if":
